@@ -343,7 +343,11 @@ func checkC06(ctx *Ctx) *Result {
 			}
 			if pa.Has("bin:==(index(param:str, 0), 91)", true) {
 				h := fieldOf(pa.Rets[0], "Value").Key()
-				if h == "slice(param:str, 1, call:strings.IndexByte(param:str, 93), _)" {
+				// str[1:IndexByte(str, ']')], or the same text taken from the
+				// tail: str[1:][:IndexByte(str[1:], ']')] (strings.Cut on the tail;
+				// str[0] is '[' on this path, so both find the same ']')
+				if h == "slice(param:str, 1, call:strings.IndexByte(param:str, 93), _)" ||
+					h == "slice(slice(param:str, 1, _, _), _, call:strings.IndexByte(slice(param:str, 1, _, _), 93), _)" {
 					strips = true
 				} else {
 					r.fail("R6.3", "fastParseHost: bracketed host", p.Pos(fh.Pos()), "the bracketed host is not str[1:index of `]`]: "+h)
@@ -385,6 +389,16 @@ func checkC06(ctx *Ctx) *Result {
 			}
 			if !visit {
 				bad = "Tree.Elems does not start the traversal at the root with an empty suffix"
+			}
+			// canonical order: the result is sorted before it is returned
+			sortedRes := false
+			for _, e := range pa.Effects {
+				if e.Kind == "call" && (e.Name == "slices.Sort" || e.Name == "sort.Strings") && len(pa.Rets) == 1 && len(e.Args) == 1 && e.Args[0].Key() == pa.Rets[0].Key() {
+					sortedRes = true
+				}
+			}
+			if !sortedRes {
+				bad = "Tree.Elems does not return its result in sorted (canonical) order: successive Config() values may differ"
 			}
 		}
 		r.check(bad == "" && len(ps) > 0, "R6.3", "Tree.Elems traverses from the root", p.Pos(te.Pos()), bad, len(ps))
